@@ -71,7 +71,10 @@ type c20Data struct {
 	StrPath   string
 }
 
-func c20Parse() (*c20Data, error) {
+func c20Parse() (*c20Data, error) { return c20ParseFull(false) }
+
+// c20ParseFull: with typesOnly only types.go is read (type declarations and constants), not the String methods.
+func c20ParseFull(typesOnly bool) (*c20Data, error) {
 	d := &c20Data{byName: map[string]*c20Type{}}
 	d.TypesPath = filepath.Join(repoRoot, "types.go")
 	d.StrPath = filepath.Join(repoRoot, "types_string.go")
@@ -163,6 +166,9 @@ func c20Parse() (*c20Data, error) {
 	}
 
 	// ---- types_string.go
+	if typesOnly {
+		return d, nil
+	}
 	sf, err := parser.ParseFile(fset, d.StrPath, nil, parser.ParseComments)
 	if err != nil {
 		return nil, err
